@@ -2,7 +2,8 @@ SPEC = {
     "id": "C03",
     "level": "other",
     "sidecars": [],
-    "functions": [],
+    "function_sidecars": {'ural/utils.py:unsplit_netloc': ["utils"]},
+    "functions": ['ural/utils.py:unsplit_netloc', ],
     "lemma_modules": ["props.C03_lemmas"],
     "bounded": ["bcheck.c03"],
     "explanation": (
